@@ -1,9 +1,11 @@
 import MindsVerif.Model.Sem
+import MindsVerif.Model.SemSeq
 /-! Line protocol driver for the C08 two-table fragment.
 input : <kind> <c0> <c1> <limit|-> <group 0|1> <having 0|1> <expr tokens | -> ; <t0 rows> ; <t1 rows>
         kind ::= inner | left | right | full | leftOuter
         expr ::= c <op> <side> <col> <int> | cc <op> <c0> <c1> | n <side> <col> | & e e | | e e | ! e      (prefix)
         rows ::= row/row/...   row ::= v,v,v   v ::= <int> | N          (empty table: `.`)
+input2: chain <kind> <kind> …   (join kinds of a left-deep chain)   output: nullable=<flag per table>
 output: push0=<exprs> push1=<exprs> limit0=<n|-> semi=<0|1> | plan=<rows> | query=<rows> | sound=<planSound q>
         rows of the results: l-values,r-values per row, rows separated by `/` -/
 open MindsVerif.Sem
@@ -62,7 +64,13 @@ def showRows (rs : List (TRow × TRow)) : String :=
   if rs.isEmpty then "." else
   "/".intercalate (rs.map fun (l, r) => ",".intercalate ((l ++ r).map showV))
 
+def handleChain (ks : List String) : String :=
+  match ks.mapM kindOf with
+  | some ks => "nullable=" ++ ",".intercalate ((markNullable ks).map fun b => if b then "1" else "0")
+  | none => "bad-line"
+
 def handle (line : String) : String :=
+  if line.startsWith "chain " then handleChain (((line.drop 6).trimAscii.toString.splitOn " ").filter (· ≠ "")) else
   match line.splitOn ";" with
   | [qs, a, b] =>
     match (qs.splitOn " ").filter (· ≠ "") with
